@@ -138,12 +138,21 @@ class CCodeMapper(SimplifyingSortingStringifyMapper):
                 func, self.join_rec(", ", expr.parameters, PREC_NONE))
 
     def map_power(self, expr, enclosing_prec):
-        from pymbolic.mapper.stringifier import PREC_NONE, PREC_PRODUCT
+        from pymbolic.mapper.stringifier import (
+            PREC_NONE,
+            PREC_POWER,
+            PREC_PRODUCT,
+        )
         from pymbolic.primitives import is_constant, is_zero
         if is_constant(expr.exponent):
             if is_zero(expr.exponent):
                 return "1"
             elif is_zero(expr.exponent - 1):
+                if enclosing_prec >= PREC_PRODUCT:
+                    # As for the square below: an enclosing * / % decides
+                    # about same-level parentheses by the class of its
+                    # operand, and it sees a Power, not the base.
+                    return self.rec(expr.base, PREC_POWER)
                 return self.rec(expr.base, enclosing_prec)
             elif is_zero(expr.exponent - 2):
                 if enclosing_prec >= PREC_PRODUCT:
